@@ -501,3 +501,76 @@ func (h *httpAPI) checkWriteAnswer(ledgerName string, o Op, res OpResult, s Snap
 	}
 	return ""
 }
+
+// ---------------------------------------------------------------- schema histories through the API (C29 TIE-H)
+
+// httpRequestOfS: a schema-history operation as a v2 request: POST /schemas/{version}, or a write carrying
+// ?schemaVersion= and, for template transactions, {"script":{"template":..}} instead of postings
+func httpRequestOfS(ledgerName string, so SOp) (method, path string, hdr map[string]string, body string) {
+	if so.Schema {
+		fs := []string{`"chart":` + so.Chart.text()}
+		if len(so.Tpls) > 0 {
+			var ts []string
+			for _, t := range so.Tpls {
+				ts = append(ts, fmt.Sprintf(`%s:{"description":%s,"script":%s}`, jsonStr(t.Name), jsonStr(t.Name), jsonStr(tplScript(t.Post))))
+			}
+			fs = append(fs, `"transactions":{`+strings.Join(ts, ",")+`}`)
+		}
+		return "POST", "/v2/" + ledgerName + "/schemas/" + url.PathEscape(so.Version), map[string]string{}, "{" + strings.Join(fs, ",") + "}"
+	}
+	o := so.Op
+	method, path, hdr, body = httpRequestOf(ledgerName, o)
+	if o.Kind == "create" && so.Tpl != "" {
+		// replace the postings member by the template reference
+		i := strings.Index(body, `"postings":[`)
+		j := strings.Index(body[i:], "]") + i
+		body = body[:i] + `"script":{"template":` + jsonStr(so.Tpl) + `,"vars":{}}` + body[j+1:]
+	}
+	if so.Version != "" {
+		sep := "?"
+		if strings.Contains(path, "?") {
+			sep = "&"
+		}
+		path += sep + "schemaVersion=" + url.QueryEscape(so.Version)
+	}
+	return
+}
+
+func (h *httpAPI) runSOp(ledgerName string, so SOp) (res OpResult) {
+	method, path, hdr, body := httpRequestOfS(ledgerName, so)
+	resp := h.do(method, path, hdr, body)
+	res.HTTP = true
+	if resp.Code == 599 {
+		res.Panic = string(resp.Body)
+		return res
+	}
+	if resp.Code >= 300 {
+		res.Class = resp.errClass()
+		return res
+	}
+	res.Class = "none"
+	res.Hit = resp.Hdr.Get("Idempotency-Hit") == "true"
+	kind := so.Op.Kind
+	if so.Schema {
+		kind = "setmeta" // 204, no body
+	}
+	want := map[string]int{"create": 200, "revert": 201, "setmeta": 204, "delmeta": 204}[kind]
+	if resp.Code != want {
+		res.Class = fmt.Sprintf("%d:unexpected-success-status", resp.Code)
+		return res
+	}
+	if kind == "create" || kind == "revert" {
+		var env struct {
+			Data struct {
+				ID *int64 `json:"id"`
+			} `json:"data"`
+		}
+		if err := json.Unmarshal(resp.Body, &env); err != nil || env.Data.ID == nil {
+			res.Class = "200:undecodable-body " + short(resp.Body)
+			return res
+		}
+		res.TxID = env.Data.ID
+		res.Body = resp.Body
+	}
+	return res
+}
